@@ -78,10 +78,39 @@ func (w stringWriter) WriteString(s string) (int, error) {
 	return w.write([]byte(s))
 }
 
+// richWriter is what bufio.Writer and bytes.Buffer look like to a callee that
+// probes for optional interfaces: io.StringWriter, io.ByteWriter and
+// io.ReaderFrom on top of io.Writer.  Every entry point is one write call of
+// the same fault schedule.
+type richWriter struct{ *SimWriter }
+
+func (w richWriter) Write(p []byte) (int, error) { return w.write(p) }
+func (w richWriter) WriteString(s string) (int, error) {
+	w.StringCall++
+	return w.write([]byte(s))
+}
+func (w richWriter) WriteByte(c byte) error {
+	_, err := w.write([]byte{c})
+	return err
+}
+func (w richWriter) ReadFrom(r io.Reader) (int64, error) {
+	b, err := io.ReadAll(r)
+	if err != nil {
+		return 0, err
+	}
+	n, err := w.write(b)
+	return int64(n), err
+}
+
+var writerFlavours = []string{"writer", "stringwriter", "richwriter"}
+
 func newSimWriter(scn *WriterScn) (*SimWriter, io.Writer) {
 	sw := &SimWriter{scn: scn}
 	if scn != nil && scn.Flavour == "stringwriter" {
 		return sw, stringWriter{sw}
+	}
+	if scn != nil && scn.Flavour == "richwriter" {
+		return sw, richWriter{sw}
 	}
 	return sw, plainWriter{sw}
 }
